@@ -511,7 +511,11 @@ pub fn c02_c14(tier: Tier, which: &'static str) -> i32 {
                         let bad = entry_equations(e, &glob, &o.base, rooted);
                         if !bad.is_empty() {
                             let only_depth = bad.len() == 1 && bad[0].starts_with("depth");
-                            let class = if rooted && only_depth { Some("rooted-entry-depth".to_string()) } else { None };
+                            // mirror of the recorded finding: the pivot of a rooted glob is the number
+                            // of components of the prefix plus one, so the reported depth is exactly
+                            // one more than the number of components of the whole path
+                            let mirrored = e.depth == e.rel.components().count() + 1;
+                            let class = if rooted && only_depth && mirrored { Some("rooted-entry-depth".to_string()) } else { None };
                             rep.alarm(Alarm {
                                 class,
                                 key: format!("{} {} {} {} {:?}", world.describe(), g, variant_name(variant), spelling_name(sp), e.rel),
